@@ -269,3 +269,53 @@ Example x86_requests_example :
   | None => False
   end.
 Proof. vm_compute. reflexivity. Qed.
+
+(* ---------- every cpu of every requested cpuset is below nbprocs; when every PU was looked at, it is requested alone ---------- *)
+
+Lemma by_ids_bits v skip same l s j : In (l, s) (by_ids v skip same) -> mem j s = true -> j < nbprocs v.
+Proof. intros H Hj. apply x86_class_members in H as (_ & _ & _ & H). apply (H j Hj). Qed.
+
+Lemma in_map_by_ids v skip same (f : N * bset -> lreq) r j :
+  (forall p, q_cs (f p) = snd p) -> In r (map f (by_ids v skip same)) -> mem j (q_cs r) = true -> j < nbprocs v.
+Proof.
+  intros Hf Hin Hj. apply in_map_iff in Hin as ([l s] & <- & Hin). rewrite Hf in Hj. cbn [snd] in Hj.
+  eapply by_ids_bits; eassumption.
+Qed.
+
+Theorem x86_request_bits_below_nbprocs keep v rs r j :
+  x86_requests keep v = Some rs -> In r rs -> mem j (q_cs r) = true -> j < nbprocs v.
+Proof.
+  unfold x86_requests. destruct (negb (x86_full v)); [discriminate|].
+  destruct (last_present v) as [one|]; [|intros H; injection H as <-; intros []].
+  intros H Hin Hj. injection H as <-.
+  repeat (apply in_app_or in Hin as [Hin|Hin]).
+  - destruct (keep HWLOC_OBJ_PACKAGE); [|contradiction]. eapply in_map_by_ids; [|exact Hin|exact Hj]. intros [l s]; reflexivity.
+  - destruct (N.testbit (xv_flags v) 1); [|contradiction]. eapply in_map_by_ids; [|exact Hin|exact Hj]. intros [l s]; reflexivity.
+  - destruct (keep HWLOC_OBJ_GROUP); [|contradiction].
+    repeat (apply in_app_or in Hin as [Hin|Hin]);
+      try (destruct (xv_unit v), (xv_module v), (xv_tile v); try contradiction; unfold group_reqs in Hin;
+           (eapply in_map_by_ids; [|exact Hin|exact Hj]); intros [l s]; reflexivity).
+    unfold unknown_reqs in Hin. destruct (last_present v) as [o|]; [|contradiction]. destruct (xp_other (proc v o)) as [ol|]; [|contradiction].
+    apply in_flat_map in Hin as (lv & _ & Hin). destruct (other_at (proc v o) lv) as [id|]; [|contradiction].
+    destruct (id =? X86_UINT_MAX); [contradiction|]. eapply in_map_by_ids; [|exact Hin|exact Hj]. intros [l s]; reflexivity.
+  - destruct (xv_die v && keep HWLOC_OBJ_DIE); [|contradiction]. eapply in_map_by_ids; [|exact Hin|exact Hj]. intros [l s]; reflexivity.
+  - destruct (keep HWLOC_OBJ_CORE); [|contradiction]. eapply in_map_by_ids; [|exact Hin|exact Hj]. intros [l s]; reflexivity.
+  - apply in_flat_map in Hin as (k & Hk & Hin). destruct (xp_present (proc v k)); [|contradiction]. destruct Hin as [ <- | [] ].
+    cbn in Hj. rewrite mem_single in Hj. apply N.eqb_eq in Hj. subst j. apply in_indexes, Hk.
+  - unfold x86_cache_reqs in Hin. apply in_flat_map in Hin as (lv & _ & Hin). apply in_flat_map in Hin as (ty & _ & Hin).
+    unfold cache_reqs_at in Hin. destruct (cache_otype lv ty) as [ot|]; [|contradiction]. destruct (keep ot); [|contradiction].
+    eapply in_map_by_ids; [|exact Hin|exact Hj]. intros [l s]; reflexivity.
+Qed.
+
+(* the hypothesis of DiscPresenceProofs.discovery_covers, when no PU was skipped (no restriction to a binding, every
+   dump file readable) *)
+Theorem x86_requests_have_singletons keep v rs :
+  x86_requests keep v = Some rs -> (forall i, i < nbprocs v -> xp_present (proc v i) = true) ->
+  forall r j, In r rs -> mem j (q_cs r) = true ->
+  exists r', In r' rs /\ q_cs r' = bs_single j /\ q_type r' = HWLOC_OBJ_PU.
+Proof.
+  intros E Hall r j Hr Hj.
+  pose proof (x86_request_bits_below_nbprocs keep v rs r j E Hr Hj) as Hlt.
+  destruct (x86_pu_requests keep v rs E j) as [H | -> ]; [|contradiction].
+  exists (simple_req HWLOC_OBJ_PU j (bs_single j)). split; [apply H; split; [exact Hlt|apply Hall, Hlt]|split; reflexivity].
+Qed.
